@@ -146,14 +146,14 @@ package y
 //@ func (*WaterMark).Done
 //@   props C34
 //@ func (*WaterMark).DoneUntil
-//@   props C34
+//@   props C34 C01 C03
 //@   ensures result == w.doneUntil.v
 // The processing goroutine (this is what WaitForMark's rely clauses assume): a begin adds one to
 // the index's pending count and a done subtracts one; the mark moves only over indices whose
 // count is not positive and is published before any waiter is released; a waiter is released
 // only for an index at or below the published mark.
 //@ func (*WaterMark).process.processOne
-//@   props C34
+//@   props C34 C01 C03
 //@   light
 //@   assert[begin-adds-done-subtracts] before call DoneUntil : pending[index] == prev + delta && (done ? delta == -1 : delta == 1)
 //@   assert[pop-only-finished-indices] before call Pop : pending[min] <= 0 && min == indices[0]
@@ -162,7 +162,7 @@ package y
 //@   assert[waiters-up-to-the-new-mark-sparse] before call notifyAndRemove#2 : arg0 == idx && idx <= until
 
 //@ func (*WaterMark).process
-//@   props C34
+//@   props C34 C01 C03
 //@   light
 //@   assert[waiter-released-only-when-done] before call close : ret(Load#1) >= mark.index && arg0 == mark.waiter
 //@   assert[begin-or-done-of-this-mark] before call processOne#1 : arg0 == mark.index && arg1 == mark.done
@@ -174,7 +174,7 @@ package y
 // a mark is closed only after doneUntil reached the mark's index; a context whose Done channel
 // fired reports a non-nil error.
 //@ func (*WaterMark).WaitForMark
-//@   props C34
+//@   props C34 C01 C03
 //@   ensures[waited] result == nil ==> w.doneUntil.v >= index
 //@   ensures[monotone] w.doneUntil.v >= old(w.doneUntil.v)
 //@   rely[waiter-closed-after-advance] after select havoc w.doneUntil.v : w.doneUntil.v >= old(w.doneUntil.v) && (selected == 1 ==> w.doneUntil.v >= index)
